@@ -162,7 +162,10 @@ def main(tier):
         pts.sort()
         if len(pts) == 2 and name != "held-by-a-local-during-a-collection-then-dropped":
             (n1, a1, b1, _), (n2, a2, b2, _) = pts
-            if a2 - a1 > SLACK or b2 - b1 > SLACK:
+            # what was a root at the moment of a natural collection may stay marked (finding C19-F01): a handful of
+            # slots per collection.  A leak of the garbage itself would be >= (n2 - n1) / 2 slots.
+            allowed = SLACK + (n2 - n1) // 200
+            if a2 - a1 > allowed or b2 - b1 > allowed:
                 rep.violation("C19 %s: live storage grows with the amount of garbage produced" % name,
                               "config=%s excess live values/vectors at n=%d: %d/%d, at n=%d: %d/%d" % (cname, n1, a1, b1, n2, a2, b2),
                               {"config": {} if cname == "default" else {"STEEL_JIT": "false"}, "src": PRELUDE + "\n" + PATTERNS[name][0]})
